@@ -93,6 +93,11 @@ def generate(rng, tier):
     nfiles = rng.range(1, 4)
     names = rng.sample(["src/lib.rs", "src/main.rs", "src/a/mod.rs", "src/a/deep/x.rs", "README.md", "build.rs", "src/data.txt",
                         "tests/t.rs", "src/gen.rs.in", "Cargo.toml"], nfiles)
+    quoted = style == "git" and not abs_style and rng.chance(4)
+    if quoted:
+        # a file name outside ASCII, spelled the way git prints it by default (core.quotePath): in double quotes with
+        # octal escapes
+        names[0] = "src/caf\u00e9.rs"
     flt = rng.choice([None, None, r".*\.rs", r"src/.*\.rs", r".*", r".*\.(rs|toml)", r"src/.*\.rs|tests/.*\.rs", r"build\.rs|src/lib\.rs"])
     eff_filter = flt or r".*\.rs"
     lines = []
@@ -104,8 +109,12 @@ def generate(rng, tier):
         new_name = name
         if old is not None and new is not None and rng.chance(15):
             new_name = name.replace(".", "_renamed.") if "." in name else name + "_renamed"
+        def spell(p):
+            if quoted and any(ord(c) > 127 for c in p):
+                return '"' + "".join(c if ord(c) < 128 else "".join("\\%03o" % b for b in c.encode()) for c in p) + '"'
+            return p
         if style == "git":
-            lines.append("diff --git %s%s %s%s" % (prefix_a or "a/", name, prefix_b or "b/", new_name))
+            lines.append("diff --git %s %s" % (spell((prefix_a or "a/") + name), spell((prefix_b or "b/") + new_name)))
             if old is None:
                 lines.append("new file mode 100644")
             if new is None:
@@ -116,7 +125,7 @@ def generate(rng, tier):
         if not hunks:
             continue
         ts = "\t2026-01-01 00:00:00.000000000 +0000" if rng.chance(20) else ""
-        lines.append("--- " + ("/dev/null" if old is None else prefix_a + name) + ts)
+        lines.append("--- " + ("/dev/null" if old is None else spell(prefix_a + name)) + ts)
         post = "/dev/null" if new is None else prefix_b + new_name
         short = False
         if new is not None and p >= 1 and "/" not in new_name and not abs_style and rng.chance(35):
@@ -124,7 +133,7 @@ def generate(rng, tier):
             # and its hunks belong to nobody (least of all to the file before it)
             post = "/".join(prefix_b.split("/")[: p - 1] + [new_name])
             short = True
-        lines.append("+++ " + post + ts)
+        lines.append("+++ " + spell(post) + ts)
         stripped = new_name if new is not None else None
         if abs_style and p == 0 and new is not None:
             stripped = "/" + new_name
@@ -155,7 +164,7 @@ def generate(rng, tier):
         latin1_at = rng.below(max(1, len(ls) - 1))
     return {
         "streamfault": streamfault, "latin1_at": latin1_at, "readfault_nth": rng.range(1, 4),
-        "diff": text, "p": p, "filter": flt, "expected": expected, "ctx": ctx,
+        "diff": text, "quoted": quoted, "p": p, "filter": flt, "expected": expected, "ctx": ctx,
         "child": rng.choice(["ok"] * 5 + ["exit1", "exit101", "signal9", "signal11", "enoent", "e2big"]),
         # the tool's own standard output cannot be written (reader gone: EPIPE; disk full: ENOSPC)
         "outfault": rng.choice([None] * 5 + [32, 28]),
@@ -277,23 +286,19 @@ def execute(case):
             results.append((got_files, got_ranges, res.exit))
             if not exp:
                 if call_argv is not None:
-                    v.add("C19:child-run-for-empty-result" + ("|added-line-looks-like-header" if _header_lookalike(case["diff"]) else ""),
+                    v.add("C19:child-run-for-empty-result" + _sfx(case),
                           "%s: child argv %s" % (det, call_argv))
                 elif res.exit != 0:
                     v.add("C19:nonzero-exit-for-empty-result", det)
                 continue
             if call_argv is None:
-                v.add("C19:no-child-although-lines-were-added", "%s: expected %s" % (det, exp))
+                v.add("C19:no-child-although-lines-were-added" + ("|quoted-path" if case.get("quoted") else ""), "%s: expected %s" % (det, exp))
                 continue
             if got_files != exp_files:
-                cls = "C19:file-set"
-                if _header_lookalike(case["diff"]):
-                    cls += "|added-line-looks-like-header"
+                cls = "C19:file-set" + _sfx(case)
                 v.add(cls, "%s: files %s, expected %s" % (det, got_files, exp_files))
             if got_ranges != exp:
-                cls = "C19:ranges"
-                if _header_lookalike(case["diff"]):
-                    cls += "|added-line-looks-like-header"
+                cls = "C19:ranges" + _sfx(case)
                 v.add(cls, "%s: ranges %s, expected %s" % (det, got_ranges, exp))
             failing = child != "ok"
             if failing:
@@ -312,6 +317,14 @@ def execute(case):
             v.probe("section-text-with-plus")
         v.sample = {"diff": case["diff"][:600], "argv": argv, "expected": exp[:6], "child": case["child"], "chunks": case["chunks"]}
     return v
+
+
+def _sfx(case):
+    if _header_lookalike(case["diff"]):
+        return "|added-line-looks-like-header"
+    if case.get("quoted"):
+        return "|quoted-path"
+    return ""
 
 
 def _header_lookalike(diff):
